@@ -115,6 +115,12 @@ def cases(chk):
         {"auto": False, "contacts": 2, "events": [["send", 0], ["send", 1], ["reinstall", 1], ["notify", 1], ["send", 1], ["send", 0], ["restart"], ["send", 1]]},
         {"auto": True, "contacts": 1, "events": [["send", 0], ["reinstall", 0], ["notify", 0], ["send", 0], ["auto", 0], ["reinstall", 0], ["send", 0], ["recv", 0]]},
     ]
+    # the remembered key must survive a restart that comes right after it was learnt (no other store write in between)
+    corpus += [
+        {"auto": False, "contacts": 1, "events": [["notify", 0], ["restart"], ["reinstall", 0], ["send", 0]]},
+        {"auto": False, "contacts": 1, "events": [["notify", 0], ["restart"], ["reinstall", 0], ["notify", 0], ["recv", 0]]},
+        {"auto": False, "contacts": 2, "events": [["send", 0], ["notify", 1], ["restart"], ["reinstall", 1], ["send", 1], ["recv", 1]]},
+    ]
     for c in corpus:
         yield "history", c
     for _ in range(chk.scale(40, 1200)):
@@ -221,6 +227,8 @@ def run_case(chk, stream, case):
     if auto:
         d.ask("trust ev setAuto 1")
     hist = []
+    diverged = False
+    ghost = {}          # contact -> identity number the observer accepted last (what "remembered" means, whatever the store says)
     try:
         for ei, ev in enumerate(case["events"]):
             kind = ev[0]
@@ -259,11 +267,13 @@ def run_case(chk, stream, case):
                 A.restart()
                 A.connect()
                 w.quiesce()
-                d.ask("trust ev restart")
+                if not diverged:
+                    d.ask("trust ev restart")
             elif kind == "auto":
                 auto = bool(ev[1])
                 A.set_autotrust(auto)
-                d.ask("trust ev setAuto %d" % (1 if auto else 0))
+                if not diverged:
+                    d.ask("trust ev setAuto %d" % (1 if auto else 0))
             if w.srv.raised:
                 j, e, tb = w.srv.raised[0]
                 fails.append(oracle("C17:exception-escaped", "%s: %s raised in %s: %s" % (ctx, type(e).__name__, j, tb.strip().splitlines()[-1])))
@@ -275,6 +285,22 @@ def run_case(chk, stream, case):
                 if ci is None or ci >= case["contacts"]:
                     continue
                 chk.hit("micro:" + m["ev"])
+                # ---- the property on the real run, independent of the model and of what the store claims: once an identity was
+                # accepted for a contact, a different one is never accepted while automatic trust is off
+                accepted = None
+                if m["ev"] == "bundle" and m["outcome"] == "ok":
+                    accepted = w.key_no(ci, m["identity"])
+                elif m["ev"] == "firstMsg" and m.get("delivered") and m["outcome"] == "ok":
+                    accepted = w.key_no(ci, m["identity"])
+                if accepted is not None:
+                    if ci in ghost and ghost[ci] != accepted and not auto:
+                        fails.append(oracle("C17:changed-key-accepted-silently", "%s: identity #%d was remembered for contact %d; a %s presenting identity #%d was accepted with "
+                                            "automatic trust off" % (ctx, ghost[ci], ci, "key bundle" if m["ev"] == "bundle" else "first message", accepted)))
+                        bad = True
+                        break
+                    ghost[ci] = accepted
+                if diverged:
+                    continue
                 if m["ev"] == "bundle":
                     k = w.key_no(ci, m["identity"])
                     line = d.ask("trust ev bundle %d %d" % (ci, k))
@@ -311,8 +337,7 @@ def run_case(chk, stream, case):
                 if want != got or mstate_cmp != m["state"]:
                     fails.append(corr("micro:" + m["ev"], "%s: micro event %s (contact %d): impl=%s | %s   model=%s [%s] | %s"
                                       % (ctx, m["ev"], ci, got, m["state"], want, mouts, mstate_cmp)))
-                    bad = True
-                    break
+                    diverged = True          # go on with the real run alone: the clauses below look for a concrete failing history
             if bad:
                 break
             # ---- the property's clauses on the real run
